@@ -730,6 +730,62 @@ for pid in ("C03", "C04", "C17"):
 PROPERTIES["C10"]["explanation"] += " Long needles (LN) are also run under EVERY weak order of ranks on their first three letters (thorough: every function from the first four letters to four rank levels), so ties between different needle bytes occur at every position of the pair selection."
 PROPERTIES["C13"]["explanation"] += " Needle construction: every run-length shape of the needle with at most 4 (5) runs of 1, K(-1), K+1 bytes over two letters at about 3000 bytes - the inputs on which the suffix and period computations branch differently."
 
+
+# ---- additions after the sixth round of independently seeded changes
+# (long needles at EVERY length with rare bytes at every pair of positions and
+# foreign-byte cuts; value relations between needle bytes; see DESIGN 9.2)
+PROPERTIES["C03"]["jobs"] += [
+    ss("lgrid", FWD, RESULT, "ss/lgrid/fwd (long needles at every length)"),
+    {"name": "ss[k3]/lgrid/fwd", "build": V("ss", "k3"), "classes": RESULT, "args": ["lgrid", "--tier", "{tier}", "--subjects", "memmem,finder,finder-nopre"]},
+    {"name": "ss[k4]/lgrid/fwd", "build": K("ss", "k4"), "classes": RESULT, "args": ["lgrid", "--tier", "{tier}", "--subjects", "memmem,finder"]},
+]
+PROPERTIES["C04"]["jobs"] += [
+    ss("lgrid", REV, RESULT, "ss/lgrid/rev (long needles at every length)"),
+    {"name": "ss[k3]/lgrid/rev", "build": V("ss", "k3"), "classes": RESULT, "args": ["lgrid", "--tier", "{tier}", "--subjects", "rmemmem,rfinder"]},
+]
+for _l in ("compl", "x1", "ff", "sign"):
+    PROPERTIES["C03"]["jobs"] += [
+        ss("epad", FWD, RESULT, "ss/E2pad[%s]/fwd (needle bytes related by complement / xor 1 / sign bit)" % _l, ["--letters", _l], q=["--nmax", "3", "--hmax", "6"], t=["--nmax", "4", "--hmax", "9"]),
+        ss("e", FWD, RESULT, "ss/E2[%s]/fwd" % _l, ["--letters", _l], q=["--nmax", "4", "--hmax", "10"], t=["--nmax", "6", "--hmax", "13"]),
+    ]
+    PROPERTIES["C04"]["jobs"] += [
+        ss("epad", REV, RESULT, "ss/E2pad[%s]/rev" % _l, ["--letters", _l], q=["--nmax", "3", "--hmax", "6"], t=["--nmax", "4", "--hmax", "9"]),
+        ss("e", REV, RESULT, "ss/E2[%s]/rev" % _l, ["--letters", _l], q=["--nmax", "4", "--hmax", "10"], t=["--nmax", "6", "--hmax", "13"]),
+    ]
+    PROPERTIES["C12"]["jobs"] += [ss("epad", "twoway,rtwoway,rk,rrk,shiftor,pp-sse2,pp-avx2", RESULT, "ss/E2pad[%s]/blocks" % _l, ["--letters", _l], q=["--nmax", "3", "--hmax", "6"], t=["--nmax", "4", "--hmax", "9"])]
+    PROPERTIES["C11"]["jobs"] += [ss("epad", PFS, RESULT, "ss/E2pad[%s]/prefilter" % _l, ["--letters", _l], q=["--nmax", "3", "--hmax", "6"], t=["--nmax", "4", "--hmax", "9"])]
+PROPERTIES["C14"]["jobs"] += [ss("lgrid", GRID_ALL + ",twoway,rtwoway,rk,rrk", ["panic"], "ss/lgrid")]
+PROPERTIES["C17"]["jobs"] += [ss("lgrid", GRID_ALL + ",twoway,rtwoway,rk,rrk,pp-sse2,pp-avx2,pf-sse2,pf-avx2,pf-portable", ["alloc"], "ss/lgrid (construction and search at every needle length up to 1100)")]
+PROPERTIES["C12"]["jobs"] += [ss("lgrid", "twoway,rtwoway,rk,rrk,pp-sse2,pp-avx2", RESULT, "ss/lgrid/blocks")]
+PROPERTIES["C11"]["jobs"] += [ss("lgrid", "pf-sse2,pf-avx2,pf-portable", RESULT, "ss/lgrid/prefilter")]
+PROPERTIES["C10"]["jobs"] += [ss("lgrid", ranked(["default", "reversed", "identity", "needle-common", "wo:0100"], kinds=("ranked",)), RESULT, "ss/lgrid/rankers")]
+PROPERTIES["C05"]["jobs"] += [ss("lgrid", "pf-vn8,pp-vn8,pf-vn16,pp-vn16", MEMORY, "ss/lgrid/vn-monitored")]
+for pid in ("C03", "C04", "C12", "C17"):
+    PROPERTIES[pid]["explanation"] += " `lgrid`: long needles at EVERY length 33..=300 (600) - two rare bytes at every ordered pair of positions from a set bracketing the u8 index limits, the vector widths and both ends; a^i b a^j with the short side left and right; periodic and long-period needles - in haystacks with 0..=4 bytes in front of and 0..=64 behind the occurrence, with its first / last byte changed, behind a needle prefix cut by a FOREIGN byte at many positions, behind near misses; then construction + three searches at every length up to 1100 (2100)."
+for pid in ("C03", "C04"):
+    PROPERTIES[pid]["explanation"] += " E2 / E2pad are repeated over alphabets whose two letters are related by value: {61,9E} (complement), {60,61} (xor 1 / +1), {00,FF}, {7F,80}."
+PROPERTIES["C16"]["explanation"] += " Every history is run twice: with each haystack in its own allocation, and with all haystacks copied into ONE buffer before each search (same address; three haystacks of equal length with different occurrence sets give same address AND length with different content)."
+PROPERTIES["C13"]["explanation"] += " Iteration next to a long barren region (needle a^8 / ab / abcab matching back to back in one half, the other half free of needle bytes) also runs at 2^18 bytes in the quick tier: a per-match cost proportional to the barren part only shows at scale."
+
+
+def warm(ks, styles=("miss",), thread=False):
+    return ",".join("finder-warm:%d:%s%s" % (k, st, ":thread" if thread else "") for st in styles for k in ks)
+
+
+# a fresh Finder that has already made k searches (k brackets the crate's own
+# adaptive threshold of 50 prefilter calls) must answer like a fresh one; with
+# `thread` the k searches are made by a second thread sharing the finder
+PROPERTIES["C16"]["jobs"] += [
+    ss("ln", warm(range(30, 65)) + "," + warm(range(45, 53), ("hit",)), RESULT, "ss/LN/warmed finders (k earlier searches on the same Finder)", ["--lengths", "33,40,65"], tiers=("quick",)),
+    ss("ln", warm(range(0, 131), ("miss", "hit")), RESULT, "ss/LN/warmed finders (k earlier searches on the same Finder)", ["--lengths", "33,40,47,65,100"], tiers=("thorough",)),
+]
+PROPERTIES["C15"]["jobs"] += [
+    ss("ln", warm(range(40, 53), thread=True), RESULT, "ss/LN/finder warmed by another thread", ["--lengths", "40"], tiers=("quick",)),
+    ss("ln", warm(range(30, 71), ("miss", "hit"), thread=True), RESULT, "ss/LN/finder warmed by another thread", ["--lengths", "33,40,65"], tiers=("thorough",)),
+]
+PROPERTIES["C16"]["explanation"] += " History LENGTH as a dimension: over the long-needle space LN, a fresh Finder first makes k searches of a near miss (or of the needle itself) and then the search under test, for every k in 30..=64 (thorough 0..=130) - bracketing the crate's adaptive threshold of 50 prefilter calls; the answer must be the fresh finder's."
+PROPERTIES["C15"]["explanation"] += " Call-granularity sharing: a Finder shared by reference with a second thread that makes k searches (k = 40..=52; thorough 30..=70) before the first thread searches - over the LN space; every answer must equal the answer in isolation (state that a change hoists into the shared Finder shows here even when it needs dozens of earlier calls, which no loom program reaches)."
+
 HOOK_COMMITS = ["ffdf165", "556bbde", "0f24165", "8fa21ee"]
 
 ENGINES = [
